@@ -8,6 +8,7 @@ import (
 var checks = map[string]func(*Ctx){
 	"C02": runC02,
 	"C03": runC03,
+	"C05": runC05,
 }
 
 func main() {
